@@ -151,6 +151,12 @@ func c18mutations() []c18stream {
 	add("CONNECT/bad-protocol-name", tmpl{"", 0x10, append(append(lp("MQTX"), 4, 2, 0, 30), lp("hostile")...), nil, -1}.bytes())
 	add("CONNECT/protocol-level-9", tmpl{"", 0x10, append(append(lp("MQTT"), 9, 2, 0, 30), lp("hostile")...), nil, -1}.bytes())
 	add("CONNECT/keepalive-0", tmpl{"", 0x10, append(append(lp("MQTT"), 4, 2, 0, 0), lp("hostile")...), nil, -1}.bytes())
+	// strings that are not valid UTF-8 (the replicated state is protobuf: such strings cannot be marshalled)
+	add("CONNECT/client-id-invalid-utf8", tmpl{"", 0x10, append(append(lp("MQTT"), 4, 2, 0, 30), lp("bad\xff\xfeid")...), nil, -1}.bytes())
+	add("CONNECT/username-invalid-utf8", tmpl{"", 0x10, append(append(append(append(lp("MQTT"), 4, 0x02|0x80|0x40, 0, 30), lp("hostile")...), lp("u\xff")...), lp("p")...), nil, -1}.bytes())
+	add("CONNECT/will-topic-invalid-utf8", tmpl{"", 0x10, append(append(append(append(lp("MQTT"), 4, 0x02|0x04, 0, 30), lp("hostile")...), lp("w\xc3\x28")...), lp("m")...), nil, -1}.bytes())
+	add("SUBSCRIBE/filter-invalid-utf8", tmpl{"", 0x82, append(append([]byte{0, 7}, lp("h/\xff")...), 0), nil, -1}.bytes())
+	add("PUBLISH/topic-invalid-utf8", tmpl{"", 0x31, append(lp("h/\xfe\xff"), 'x'), nil, -1}.bytes())
 	add("CONNECT/empty-client-id", tmpl{"", 0x10, append(append(lp("MQTT"), 4, 2, 0, 30), lp("")...), nil, -1}.bytes())
 	return out
 }
@@ -292,4 +298,73 @@ func clip(b []byte, n int) []byte {
 		return b[:n]
 	}
 	return b
+}
+
+
+// TestC18SplitPackets: a slow (not hostile) sender whose packet arrives in two pieces while many other
+// clients connect in between: every connection has its own framing state, the packet must arrive intact.
+func TestC18SplitPackets(t *testing.T) {
+	type sp struct {
+		Size    int `json:"payload_size"`
+		SplitAt int `json:"split_after_bytes"`
+		Others  int `json:"connections_in_between"`
+	}
+	var paths []sp
+	for _, size := range []int{200, 20000} {
+		for _, at := range []int{1, 2, 3, 10} {
+			for _, o := range []int{1, 25, 45} {
+				paths = append(paths, sp{size, at, o})
+			}
+		}
+	}
+	RunPaths(t, "C18", "C18/split-packets", "TestC18SplitPackets", len(paths), vk.Pick(4*time.Minute, 10*time.Minute),
+		func(t *testing.T, i int, rep *vk.Report) {
+			p := paths[i]
+			RunBubble(t, fmt.Sprintf("p%d", i), func(t *testing.T) {
+				w := NewWorld(t, 1)
+				defer w.Close()
+				sub := w.NewClient("sub", 1, AckAll)
+				sub.Connect(ConnectOpts{ClientID: "sub", KeepAlive: 600})
+				sub.Subscribe(1, 0, "big/#")
+				slow := w.NewClient("slow", 1, AckAll)
+				slow.Connect(ConnectOpts{ClientID: "slow", KeepAlive: 600})
+				w.Step()
+				payload := make([]byte, p.Size)
+				for k := range payload {
+					payload[k] = byte('a' + k%26)
+				}
+				pkt := tmpl{"", 0x30, append(lp("big/t"), payload...), nil, -1}.bytes()
+				slow.SendRaw(pkt[:p.SplitAt])
+				w.Step()
+				for k := 0; k < p.Others; k++ {
+					o := w.NewClient(fmt.Sprintf("other%d", k), 1, AckAll)
+					if o.Connect(ConnectOpts{ClientID: fmt.Sprintf("other%d", k), KeepAlive: 600}) != 0 {
+						rep.Violate(vk.Violation{Sig: "c18-bystander-connect-failed", Msg: fmt.Sprintf("%+v: connection %d could not connect while another client's packet was half sent", p, k), Replay: p})
+						return
+					}
+				}
+				w.Step()
+				slow.SendRaw(pkt[p.SplitAt:])
+				w.Step()
+				w.Idle(2 * time.Second)
+				Observe(w, rep)
+				got := sub.Publishes()
+				if len(got) != 1 || string(got[0].Topic) != "big/t" || string(got[0].Payload) != string(payload) {
+					d := "nothing"
+					if len(got) > 0 {
+						d = fmt.Sprintf("%d packet(s), first: topic %q, %d payload bytes", len(got), got[0].Topic, len(got[0].Payload))
+					}
+					rep.Violate(vk.Violation{Sig: "c18-packet-corrupted-by-other-connections", Msg: fmt.Sprintf("%+v: the subscriber should have received the %d-byte publish intact, it received %s (slow sender's connection closed: %v)", p, p.Size, d, slow.BrokerClosed()), Replay: p})
+					return
+				}
+				MarkNontrivial(fmt.Sprintf("%+v", p))
+				rep.Nontrivial++
+				rep.Sample(p)
+			})
+		},
+		func(i int) any { return paths[i] },
+		func(rep *vk.Report) {
+			rep.Rule = "a valid PUBLISH of 200 / 20000 payload bytes (2- and 3-byte remaining length) is sent in two pieces split after 1, 2, 3 or 10 bytes while 1, 25 or 45 other clients connect in between (more than the 20 connection set-up workers); the subscriber must receive it intact"
+			rep.Floor("paths", 10, rep.Nontrivial)
+		})
 }
